@@ -192,7 +192,12 @@ for op in spec['ops']:
             for f in sorted(os.listdir(d)):
                 if f.endswith('.py'):
                     with open(os.path.join(d, f), 'rb') as fh:
-                        h[f] = hashlib.sha256(fh.read()).hexdigest()[:16]
+                        blob = fh.read()
+                    if f == '__init__.py':
+                        # the package file records andes.__version__, which versioneer derives from the git state of the
+                        # checkout (commit count, sha, dirty flag): not part of the generated functions
+                        blob = b'\n'.join(ln for ln in blob.split(b'\n') if not ln.startswith(b'__version__'))
+                    h[f] = hashlib.sha256(blob).hexdigest()[:16]
             step['hash'] = h
         step['ok'] = True
     except BaseException as e:
